@@ -55,6 +55,7 @@ package v0
 //   peer p       1, 2, ... in the order they connect
 
 import (
+	"encoding/json"
 	"fmt"
 	"os"
 	"path/filepath"
@@ -68,6 +69,7 @@ import (
 
 	abci "github.com/tendermint/tendermint/abci/types"
 	cfg "github.com/tendermint/tendermint/config"
+	"github.com/tendermint/tendermint/evidence"
 	"github.com/tendermint/tendermint/consensus"
 	"github.com/tendermint/tendermint/crypto/ed25519"
 	vg "github.com/tendermint/tendermint/internal/verifgen"
@@ -110,7 +112,11 @@ type c13World struct {
 	upds    []c13Upd
 	sets    [][]c13Val                       // sets[j], j = 1..L+1: the validator set of the j-th height, in the order of ValidatorSet.Validators
 	abciUpd map[int64][]abci.ValidatorUpdate // by height
-	genDoc  *types.GenesisDoc
+	// evidence world (evIn > 0): block evIn carries a DuplicateVoteEvidence of the first validator
+	// of position evOf; the chain is made, and every node of the world runs, with a REAL
+	// evidence.Pool in the BlockExecutor
+	evOf, evIn int64
+	genDoc     *types.GenesisDoc
 	blocks  []*types.Block  // 1..L (index j: height ih+j-1)
 	ids     []types.BlockID // 1..L
 	commits []*types.Commit // commits[j]: every validator signs block j (1..L)
@@ -181,17 +187,35 @@ func (w *c13World) setDescr(j int64) string {
 }
 
 func c13NewExec(state sm.State, upd map[int64][]abci.ValidatorUpdate) *c13Exec {
+	return c13NewExecOpt(state, upd, false, true)
+}
+
+// realPool: the BlockExecutor gets a real evidence.Pool over the node's own state and block
+// store (as node.NewNode wires it); saveState: the handshake has saved the state (not so on a
+// node that starts with a state sync)
+func c13NewExecOpt(state sm.State, upd map[int64][]abci.ValidatorUpdate, realPool, saveState bool) *c13Exec {
 	app := proxy.NewAppConns(proxy.NewLocalClientCreator(&c13App{upd: upd}))
 	app.SetLogger(log.NewNopLogger())
 	if err := app.Start(); err != nil {
 		panic(err)
 	}
 	ss := sm.NewStore(dbm.NewMemDB(), sm.StoreOptions{})
-	if err := ss.Save(state); err != nil {
-		panic(err)
+	if saveState {
+		if err := ss.Save(state); err != nil {
+			panic(err)
+		}
 	}
 	bs := store.NewBlockStore(dbm.NewMemDB())
-	be := sm.NewBlockExecutor(ss, log.NewNopLogger(), app.Consensus(), mpmock.Mempool{}, sm.EmptyEvidencePool{})
+	var evpool sm.EvidencePool = sm.EmptyEvidencePool{}
+	if realPool {
+		p, err := evidence.NewPool(dbm.NewMemDB(), ss, bs)
+		if err != nil {
+			panic(err)
+		}
+		p.SetLogger(log.NewNopLogger())
+		evpool = p
+	}
+	be := sm.NewBlockExecutor(ss, log.NewNopLogger(), app.Consensus(), mpmock.Mempool{}, evpool)
 	return &c13Exec{app: app, stateStore: ss, blockStore: bs, blockExec: be}
 }
 
@@ -200,6 +224,11 @@ func c13Txs(h int64, salt byte) []types.Tx {
 }
 
 func c13BuildWorld(powers []int64, ih int64, upds ...c13Upd) *c13World {
+	return c13BuildWorldEv(powers, ih, 0, 0, upds...)
+}
+
+// c13BuildWorldEv: evIn > 0 makes an evidence world (see c13World.evIn)
+func c13BuildWorldEv(powers []int64, ih, evOf, evIn int64, upds ...c13Upd) *c13World {
 	n := len(powers)
 	G := n
 	for _, u := range upds {
@@ -208,7 +237,14 @@ func c13BuildWorld(powers []int64, ih int64, upds ...c13Upd) *c13World {
 		}
 	}
 	w := &c13World{ih: ih, powers0: powers, upds: upds, bids: map[int64]types.BlockID{0: {}},
-		abciUpd: map[int64][]abci.ValidatorUpdate{}}
+		abciUpd: map[int64][]abci.ValidatorUpdate{}, evOf: evOf, evIn: evIn}
+	for x := int64(1); x <= 3; x++ {
+		hh := make([]byte, 32)
+		for i := range hh {
+			hh[i] = byte(x*37) + byte(i)
+		}
+		w.bids[200+x] = types.BlockID{Hash: hh, PartSetHeader: types.PartSetHeader{Total: 1, Hash: hh}}
+	}
 	var gvals []types.GenesisValidator
 	byAddr := map[string]int64{}
 	for g := 0; g < G; g++ {
@@ -238,7 +274,7 @@ func c13BuildWorld(powers []int64, ih int64, upds ...c13Upd) *c13World {
 	}
 	w.sets = make([][]c13Val, c13L+2)
 	w.sets[1] = setOf(state.Validators)
-	ex := c13NewExec(state, w.abciUpd)
+	ex := c13NewExecOpt(state, w.abciUpd, evIn > 0, true)
 	defer ex.app.Stop() //nolint:errcheck
 	w.blocks = make([]*types.Block, c13L+1)
 	w.ids = make([]types.BlockID, c13L+1)
@@ -250,7 +286,11 @@ func c13BuildWorld(powers []int64, ih int64, upds ...c13Upd) *c13World {
 	for j := int64(1); j <= c13L; j++ {
 		h := w.H(j)
 		prop := state.Validators.GetProposer().Address
-		blk, parts := state.MakeBlock(h, c13Txs(j, 0), last, nil, prop)
+		var evs []types.Evidence
+		if j == evIn {
+			evs = []types.Evidence{w.duplicateVote(ex, evOf)}
+		}
+		blk, parts := state.MakeBlock(h, c13Txs(j, 0), last, evs, prop)
 		w.alt[j], _ = state.MakeBlock(h, c13Txs(j, 7), last, nil, prop)
 		w.bad[j], _ = state.MakeBlock(h, c13Txs(j, 0), last, nil, prop)
 		w.bad[j].AppHash = []byte("verif-c13-wrong-app-hash-32bytes")
@@ -276,15 +316,38 @@ func c13BuildWorld(powers []int64, ih int64, upds ...c13Upd) *c13World {
 		}
 		last = w.realCommit(w.genuine(j, j)) // every validator of the set of j signs block j
 		w.commits[j] = last
-	}
-	for x := int64(1); x <= 3; x++ {
-		hh := make([]byte, 32)
-		for i := range hh {
-			hh[i] = byte(x*37) + byte(i)
+		if evIn > 0 { // the real evidence pool reads the block metas of earlier heights
+			ex.blockStore.SaveBlock(blk, parts, last)
 		}
-		w.bids[200+x] = types.BlockID{Hash: hh, PartSetHeader: types.PartSetHeader{Total: 1, Hash: hh}}
 	}
 	return w
+}
+
+// duplicateVote: the first validator of position evOf signed two different blocks at that
+// height; made against the validator set and the block time the full node holds for it
+func (w *c13World) duplicateVote(ex *c13Exec, evOf int64) types.Evidence {
+	evH := w.H(evOf)
+	meta := ex.blockStore.LoadBlockMeta(evH)
+	valSet, err := ex.stateStore.LoadValidators(evH)
+	if meta == nil || err != nil {
+		panic(fmt.Sprintf("verif c13: no header / validators of the evidence height %d: %v", evH, err))
+	}
+	g := w.sets[evOf][0].g
+	vote := func(id int64) *types.Vote {
+		v := &types.Vote{Type: tmproto.PrecommitType, Height: evH, Round: 0, BlockID: w.bids[id],
+			Timestamp: meta.Header.Time, ValidatorAddress: w.addrs[g], ValidatorIndex: 0}
+		sig, err := w.privs[g].Sign(types.VoteSignBytes(c13Chain, v.ToProto()))
+		if err != nil {
+			panic(err)
+		}
+		v.Signature = sig
+		return v
+	}
+	ev := types.NewDuplicateVoteEvidence(vote(201), vote(202), meta.Header.Time, valSet)
+	if ev == nil {
+		panic("verif c13: could not make the duplicate vote evidence")
+	}
+	return ev
 }
 
 // idOf: the number of a whole BlockID (hash and part-set header) in the world's table; 999 = none
@@ -657,6 +720,7 @@ type c13Node struct {
 	sw       *p2p.Switch
 	startOK  bool // consensus.NewState at node start returned
 	startH   int64
+	snapH    int64 // height of the restored snapshot (0: the node did not start with a state sync)
 	conS     *consensus.State
 	cons     *c13ConsR
 	switchCh chan c13Switch
@@ -677,8 +741,15 @@ func c13NewConsState(ccfg *cfg.ConsensusConfig, state sm.State, ex *c13Exec) (cs
 }
 
 // c13NewNode: a node that has applied and stored the first `start` blocks of the world
-func c13NewNode(w *c13World, start int64) *c13Node {
-	ex := c13NewExec(w.states[0].Copy(), w.abciUpd)
+func c13NewNode(w *c13World, start int64) *c13Node { return c13NewNodeOpt(w, start, 0) }
+
+// c13NewNodeOpt: snapshot > 0 makes a node that starts with a state sync and has just restored
+// the snapshot of position `snapshot` (what node.startStateSync does once the state sync reactor
+// returned the light-verified state and commit: stateStore.Bootstrap, blockStore.SaveSeenCommit,
+// bcR.SwitchToFastSync); its stores hold nothing below that height.  Evidence worlds run with a
+// real evidence.Pool in the node's BlockExecutor.
+func c13NewNodeOpt(w *c13World, start, snapshot int64) *c13Node {
+	ex := c13NewExecOpt(w.states[0].Copy(), w.abciUpd, w.evIn > 0, snapshot == 0)
 	state := w.states[0].Copy()
 	for j := int64(1); j <= start; j++ {
 		blk := w.blocks[j]
@@ -690,7 +761,7 @@ func c13NewNode(w *c13World, start int64) *c13Node {
 		}
 		ex.blockStore.SaveBlock(blk, parts, w.commits[j])
 	}
-	bcR := NewBlockchainReactor(state.Copy(), ex.blockExec, ex.blockStore, true)
+	bcR := NewBlockchainReactor(state.Copy(), ex.blockExec, ex.blockStore, snapshot == 0) // fastSync && !stateSync
 	bcR.SetLogger(log.NewNopLogger())
 	nk := p2p.NodeKey{PrivKey: ed25519.GenPrivKey()}
 	tr := p2p.NewMultiplexTransport(p2p.DefaultNodeInfo{DefaultNodeID: nk.ID()}, nk, conn.DefaultMConnConfig())
@@ -733,6 +804,21 @@ func c13NewNode(w *c13World, start int64) *c13Node {
 	}
 	if err := bcR.Start(); err != nil {
 		panic(err)
+	}
+	if snapshot > 0 {
+		st := w.states[snapshot].Copy()
+		st.LastHeightValidatorsChanged = w.H(snapshot) + 2      // as lightClientStateProvider.State
+		st.LastHeightConsensusParamsChanged = w.H(snapshot) + 1 // as lightClientStateProvider.State
+		if err := ex.stateStore.Bootstrap(st); err != nil {
+			panic(err)
+		}
+		if err := ex.blockStore.SaveSeenCommit(st.LastBlockHeight, w.commits[snapshot]); err != nil {
+			panic(err)
+		}
+		n.snapH = st.LastBlockHeight
+		if err := bcR.SwitchToFastSync(st); err != nil {
+			panic(err)
+		}
 	}
 	return n
 }
@@ -807,13 +893,22 @@ func (n *c13Node) observe(res *c13Switch) (o c13HandObs) {
 		switch {
 		case rs.LastCommit == nil:
 			o.lcc = 0
-		case c13SameCommit(rs.LastCommit.MakeCommit(), n.ex.blockStore.LoadSeenCommit(n.ex.blockStore.Height())):
+		case c13SameCommit(rs.LastCommit.MakeCommit(), n.ex.blockStore.LoadSeenCommit(n.topHeight())):
 			o.lcc = 1
 		default:
 			o.lcc = 2
 		}
 	}()
 	return o
+}
+
+// topHeight: the height of the last block the node has (the snapshot height while a
+// state-synced node has stored no block yet)
+func (n *c13Node) topHeight() int64 {
+	if h := n.ex.blockStore.Height(); h > 0 {
+		return h
+	}
+	return n.snapH
 }
 
 // switchNow makes the call poolRoutine makes when the pool is caught up:
@@ -1939,6 +2034,255 @@ func TestVerifC13Handover(t *testing.T) {
 		if cs.Want(idH[k]) {
 			cs.Add(idH[k], fmt.Sprintf("hand:ih%d:%s", w.ih, kind), true, sc.handTerm(w, res), d)
 		}
+	}
+	if err := cs.Write(); err != nil {
+		t.Fatal(err)
+	}
+}
+
+// ------------------------------------------------------------------ TestVerifC13StateSync
+
+// Block sync after a state sync (the node's normal start with state sync enabled:
+// Bootstrap + SaveSeenCommit + SwitchToFastSync), and block sync from genesis as the control,
+// on evidence worlds: every BlockExecutor has a REAL evidence.Pool over the node's own stores.
+// Only honest peers.  A state-synced node has no block meta below its snapshot height, so the
+// real pool cannot verify evidence of such a height: it refuses the canonical block that
+// carries it (known finding F89).  Those cases are generated only when known_findings.json
+// lists class 89 for C13, or with VERIF_C13_F89=1.
+
+// c13F89: generate the cases of known finding F89
+func c13F89() bool {
+	if os.Getenv("VERIF_C13_F89") == "1" {
+		return true
+	}
+	// bin/check sets VERIF_OUT=<verif>/work/<run dir>
+	raw, err := os.ReadFile(filepath.Join(vg.OutDir(), "..", "..", "known_findings.json"))
+	if err != nil {
+		return false
+	}
+	var kf struct {
+		Findings []struct {
+			Property string `json:"property"`
+			Status   string `json:"status"`
+			Code     int    `json:"code"`
+		} `json:"findings"`
+	}
+	if json.Unmarshal(raw, &kf) != nil {
+		return false
+	}
+	for _, f := range kf.Findings {
+		if f.Property == "C13" && f.Status == "known" && f.Code == 89 {
+			return true
+		}
+	}
+	return false
+}
+
+var c13EvWorlds []*c13World
+
+// evidence worlds: (powers, InitialHeight, position the validator double-signed at, position of
+// the block that carries the evidence)
+func c13GetEvWorlds() []*c13World {
+	if c13EvWorlds == nil {
+		c13EvWorlds = []*c13World{
+			c13BuildWorldEv(c13Powers[0], 1, 2, 5),
+			c13BuildWorldEv(c13Powers[1], 5, 1, 4),
+		}
+		if vg.Thorough() {
+			c13EvWorlds = append(c13EvWorlds,
+				c13BuildWorldEv(c13Powers[2], 1000, 3, 5),
+				c13BuildWorldEv(c13Powers[0], 2, 1, 3, c13Upd{1, 4, 25}))
+		}
+	}
+	return c13EvWorlds
+}
+
+type c13SSResult struct {
+	base, top     int64 // base of the block store, State.LastBlockHeight saved last
+	canon         bool
+	hstopped      int64
+	honestLeft    bool
+	switched      bool
+	hob           c13HandObs
+	next          uint64 // ValidateBlock(saved state, canonical block top+1): 0 nil, 1 the evidence pool lacks the header / validators of the evidence height, 2 other error, 3 not asked
+	nextErr       string
+	peersStopped  []bool
+}
+
+func c13RunSS(w *c13World, snapshot int64, npeers int, r *vg.Rand) *c13SSResult {
+	node := c13NewNodeOpt(w, 0, snapshot)
+	L := c13L
+	res := &c13SSResult{}
+	for i := 0; i < npeers; i++ {
+		node.connect(w.H(1), w.H(L))
+	}
+	deadline := time.Now().Add(time.Duration(vg.Scale(6, 8)) * time.Second)
+	var swres *c13Switch
+LOOP:
+	for time.Now().Before(deadline) {
+		var batch []c13Req
+		select {
+		case x := <-node.switchCh:
+			res.switched = true
+			swres = &x
+			break LOOP
+		case rq := <-node.reqCh:
+			batch = append(batch, rq)
+		case <-time.After(2 * time.Millisecond):
+		}
+	DRAIN:
+		for {
+			select {
+			case rq := <-node.reqCh:
+				batch = append(batch, rq)
+			default:
+				break DRAIN
+			}
+		}
+		for _, k := range r.Perm(len(batch)) {
+			rq := batch[k]
+			if j := w.J(rq.height); j >= 1 && j <= L && rq.p.IsRunning() {
+				node.deliver(rq.p, w.blocks[j])
+			}
+		}
+		// nobody left to ask: nothing more will happen
+		if len(node.stopped()) == npeers {
+			time.Sleep(50 * time.Millisecond)
+			break
+		}
+	}
+	res.hob = node.observe(swres)
+	node.bcR.Stop() //nolint:errcheck
+	time.Sleep(20 * time.Millisecond)
+	res.base = node.ex.blockStore.Base()
+	res.top = node.snapH
+	if st, err := node.ex.stateStore.Load(); err == nil && st.LastBlockHeight > res.top {
+		res.top = st.LastBlockHeight
+	}
+	res.canon = true
+	for h := res.base; h >= 1 && h <= node.ex.blockStore.Height(); h++ {
+		j := w.J(h)
+		m := node.ex.blockStore.LoadBlockMeta(h)
+		if j < 1 || j > L || m == nil || !m.BlockID.Equals(w.ids[j]) || !w.c13VerifySeen(j, node.ex.blockStore.LoadSeenCommit(h)) {
+			res.canon = false
+		}
+	}
+	for _, p := range node.peers {
+		res.peersStopped = append(res.peersStopped, !p.IsRunning())
+		if p.IsRunning() {
+			res.honestLeft = true
+		} else {
+			res.hstopped++
+		}
+	}
+	// what the node's own BlockExecutor says about the canonical block it should apply next
+	res.next = 3
+	if jn := w.J(res.top) + 1; res.top == 0 {
+		jn = 1
+		_ = jn
+	}
+	jn := int64(1)
+	if res.top > 0 {
+		jn = w.J(res.top) + 1
+	}
+	if jn <= L-1 {
+		if st, err := node.ex.stateStore.Load(); err == nil {
+			err := func() (err error) {
+				defer func() {
+					if rc := recover(); rc != nil {
+						err = fmt.Errorf("panic: %v", rc)
+					}
+				}()
+				return node.ex.blockExec.ValidateBlock(st, w.blocks[jn])
+			}()
+			switch {
+			case err == nil:
+				res.next = 0
+			case strings.Contains(err.Error(), "don't have header") || strings.Contains(err.Error(), "could not find validator set") ||
+				strings.Contains(err.Error(), "validators"):
+				res.next, res.nextErr = 1, err.Error()
+			default:
+				res.next, res.nextErr = 2, err.Error()
+			}
+		}
+	}
+	node.close()
+	return res
+}
+
+func TestVerifC13StateSync(t *testing.T) {
+	defer c13ShortPeerTimeout()()
+	cs := vg.NewCases("C13", "c13_ss", "TM.C13.Exec")
+	root := vg.NewRand(vg.Seed())
+	type ssCase struct {
+		wi       int
+		snapshot int64
+		npeers   int
+	}
+	var cases []ssCase
+	ws := c13GetEvWorlds()
+	for wi, w := range ws {
+		cases = append(cases, ssCase{wi, 0, 2}) // control: block sync from genesis, real evidence pool
+		for s := int64(1); s <= c13L-2; s++ {
+			f89 := s >= w.evOf && s < w.evIn // the snapshot hides the evidence height, the evidence block is still to come
+			if f89 && !c13F89() {
+				continue
+			}
+			cases = append(cases, ssCase{wi, s, 2})
+			if f89 {
+				cases = append(cases, ssCase{wi, s, 1}, ssCase{wi, s, 3})
+			}
+		}
+	}
+	ids := make([]int, len(cases))
+	for k := range cases {
+		ids[k] = cs.NextID()
+	}
+	results := make([]*c13SSResult, len(cases))
+	sem := make(chan struct{}, 6)
+	var wg sync.WaitGroup
+	for k := range cases {
+		if !cs.Want(ids[k]) {
+			continue
+		}
+		wg.Add(1)
+		go func(k int) {
+			defer wg.Done()
+			sem <- struct{}{}
+			defer func() { <-sem }()
+			results[k] = c13RunSS(ws[cases[k].wi], cases[k].snapshot, cases[k].npeers, root.Fork(uint64(9000+k)))
+		}(k)
+	}
+	wg.Wait()
+	for k, c := range cases {
+		res := results[k]
+		if res == nil {
+			continue
+		}
+		w := ws[c.wi]
+		snapH := int64(0)
+		if c.snapshot > 0 {
+			snapH = w.H(c.snapshot)
+		}
+		term := vg.App("CSS", vg.Z(w.ih), vg.Z(snapH), vg.Z(w.H(c13L)), vg.Z(w.H(w.evIn)), vg.Z(w.H(w.evOf)),
+			vg.Tup(vg.Z(res.base), vg.Z(res.top), vg.B(res.canon), vg.Z(res.hstopped), vg.B(res.honestLeft), vg.B(res.switched), vg.N(res.next)),
+			vg.Tup(vg.N(res.hob.sres), vg.Z(res.hob.hs), vg.Z(res.hob.height), vg.N(res.hob.lcc), vg.B(res.hob.running)))
+		how := "block-syncs from genesis (fast sync from the start)"
+		if c.snapshot > 0 {
+			how = fmt.Sprintf("started with a state sync and has just restored the snapshot of height %d (stateStore.Bootstrap, blockStore.SaveSeenCommit, SwitchToFastSync): its stores hold nothing below", snapH)
+		}
+		descr := fmt.Sprintf("evidence world %d (%v, InitialHeight %d, chain of %d blocks up to height %d; the first validator of height %d double-signed there, canonical block %d carries the DuplicateVoteEvidence; chain made by a full node with a real evidence pool). The node has a REAL evidence.Pool in its BlockExecutor and %s. %d honest peers announce [%d,%d] and answer every request with the canonical block (PRNG order, stream %d). "+
+			"Observed: block store base %d, State.LastBlockHeight saved last %d, everything stored canonical=%v, honest peers stopped=%d %v, SwitchToConsensus called=%v -> %d (0 returned,1 panicked,2 not called) %q, handed-over height %d, consensus height %d, LastCommit class %d, running=%v; the node's own ValidateBlock on the canonical block after its last one: %d (0 accepts,1 evidence pool lacks the header/validators of the evidence height,2 other error,3 not asked) %q",
+			c.wi, w, w.ih, c13L, w.H(c13L), w.H(w.evOf), w.H(w.evIn), how, c.npeers, w.H(1), w.H(c13L), 9000+k,
+			res.base, res.top, res.canon, res.hstopped, res.peersStopped, res.switched, res.hob.sres, res.hob.msg, res.hob.hs, res.hob.height, res.hob.lcc, res.hob.running, res.next, res.nextErr)
+		kind := "ss:genesis-control"
+		switch {
+		case c.snapshot > 0 && c.snapshot >= w.evOf && c.snapshot < w.evIn:
+			kind = "ss:snapshot-hides-evidence-height"
+		case c.snapshot > 0:
+			kind = "ss:snapshot-control"
+		}
+		cs.Add(ids[k], kind, c.snapshot > 0, term, descr)
 	}
 	if err := cs.Write(); err != nil {
 		t.Fatal(err)
